@@ -42,6 +42,10 @@ func main() {
 		genC02(cw, *seed, *tier)
 	case "c16":
 		genC16(cw, *seed, *tier)
+	case "c13":
+		genC13(cw, *seed, *tier)
+	case "c05":
+		genC05(cw, *seed, *tier)
 	case "c14":
 		genC14(cw, *seed, *tier)
 	case "c15":
